@@ -18,6 +18,7 @@ func init() {
 			"(R06.3) GarbleActionID has one definition, addGarbleToHash(actionID(BuildID)); " +
 			"(R06.4) -V=full is answered, for every tool that has a transform, with a build id computed by addGarbleToHash; " +
 			"(R06.5) the linker stamp compared and written is getCurrentVersion(goVersion, hash of every patch file's bytes) with the same operands on both sides; " +
+			"(R06.8) the key of a package's entry in garble's own cache, which also holds what was learned about its dependencies, depends on the dependencies' action IDs; " +
 			"(R06.7) under -literals the name of every -X variable goes into the build hash, without a filter; " +
 			"(R06.6) a value that garble compiles into package P and derives from a GarbleActionID uses P's own action ID: cmd/go recompiles P only when P's action ID changes. " +
 			"Does not decide the completeness of cmd/go's own action IDs nor that an unchanged rebuild recompiles nothing.",
@@ -118,6 +119,7 @@ func checkC06(c *Ctx) {
 	checkLinkerStamp(c)
 	checkForeignActionIDs(c)
 	checkXNamesHashed(c)
+	checkPkgCacheKey(c)
 }
 
 // R06.2
@@ -168,6 +170,8 @@ func checkCacheIDs(c *Ctx) {
 			as := w.BackSlice(x.Call.Args[0], sliceOpt{})
 			if as.Fields["listedPackage.GarbleActionID"] && len(as.Calls) == 0 || isGarbleActionIDParam(w, x.Call.Args[0]) {
 				c.OK("R06.2", key, pos, "id = "+u.kind+"(GarbleActionID, ...)")
+			} else if namedOf(x.Call.Args[0].Type()) == "listedPackage" && readsOwnActionID(fn) {
+				c.OK("R06.2", key, pos, "id = "+u.kind+"(package): derived from the package's GarbleActionID inside")
 			} else {
 				c.Bad("R06.2", key, pos, "the cache id is derived by "+u.kind+" from something other than the package's GarbleActionID ("+as.Summary()+"): it does not change when the package's build inputs change")
 			}
@@ -202,6 +206,15 @@ func checkCacheIDs(c *Ctx) {
 			}
 		}
 		key := "derivation " + name
+		if namedOf(fn.Params[0].Type()) == "listedPackage" {
+			// a derivation from the package: its own action ID first, then those of its dependencies
+			// (no constant: the input is at least 32 bytes longer than any other kind's unless there are no
+			// dependencies, in which case it is sha256(id), which no other kind uses)
+			ok := readsOwnActionID(fn) && usesSha256(fn)
+			c.Check(ok, "R06.2", key, w.Pos(fn.Pos()), "sha256(GarbleActionID of the package || GarbleActionIDs of its dependencies)",
+				name+" does not hash the package's own GarbleActionID: the id does not change with the package's build inputs")
+			continue
+		}
 		if !idWritten || tag == "" || !w.BackSlice(returnsOf(fn)[0].Results[0], sliceOpt{}).HasCall("(hash.Hash).Sum") {
 			c.Bad("R06.2", key, w.Pos(fn.Pos()), fmt.Sprintf("%s is not sha256(id || constant ...): id written=%v constant=%q", name, idWritten, tag))
 			continue
@@ -228,6 +241,9 @@ func checkCacheIDs(c *Ctx) {
 		label := kind
 		if label == "" {
 			label = "GarbleActionID"
+			if puts == 0 && gets == 0 {
+				continue // no entry is keyed by the plain id
+			}
 		}
 		c.Check(puts > 0 && gets > 0, "R06.2", "kind "+label+" written and read", "", fmt.Sprintf("%d PutBytes, %d GetFile", puts, gets),
 			fmt.Sprintf("entries keyed by %s have %d writers and %d readers: writer and reader no longer use the same derivation", label, puts, gets))
@@ -265,6 +281,30 @@ func checkCacheIDs(c *Ctx) {
 		c.Check(same, "R06.2", "debug artefact kinds", w.Pos(fn.Pos()), "written kinds = read kinds = "+strings.Join(sortedKeys(wk), ","),
 			fmt.Sprintf("debug artefact kinds written %v differ from kinds read %v", sortedKeys(wk), sortedKeys(rk)))
 	}
+}
+
+// readsOwnActionID: fn writes <its first parameter>.GarbleActionID into a hash.
+func readsOwnActionID(fn *ssa.Function) bool {
+	for _, b := range fn.Blocks {
+		for _, in := range b.Instrs {
+			fa, ok := in.(*ssa.FieldAddr)
+			if ok && fieldName(fa.X.Type(), fa.Field) == "GarbleActionID" && len(fn.Params) > 0 && fa.X == ssa.Value(fn.Params[0]) {
+				return true
+			}
+		}
+	}
+	return false
+}
+
+func usesSha256(fn *ssa.Function) bool {
+	for _, b := range fn.Blocks {
+		for _, in := range b.Instrs {
+			if call, ok := in.(*ssa.Call); ok && calleeName(call) == "crypto/sha256.New" {
+				return true
+			}
+		}
+	}
+	return false
 }
 
 // isGarbleActionIDParam: the value is lpkg.GarbleActionID where lpkg may come from any lookup.
@@ -584,5 +624,89 @@ func checkXNamesHashed(c *Ctx) {
 	}
 	if n == 0 {
 		c.Bad("R06.7", "appendFlags: -X names", w.Pos(af.Pos()), "appendFlags no longer writes the names of the -X variables into the hash (F4)")
+	}
+}
+
+// R06.8. A package's entry in garble's cache (pkgCache) holds the reflection facts of the
+// whole import graph below it, including the *obfuscated names* of the dependencies' types
+// (ReflectObjectNames), merged with CopyFrom. Those names follow each dependency's own
+// GarbleActionID. The package's GarbleActionID only follows the dependencies' export data:
+// an edit of a comment in a dependency changes the dependency's names but not the
+// dependant's GarbleActionID. If the entry is keyed by that alone, the dependant is
+// recompiled (its input files changed), finds its old entry and injects the stale names:
+// reflect.TypeOf(v).Name() prints an obfuscated name where a cold build prints the original.
+func checkPkgCacheKey(c *Ctx) {
+	w := c.W
+	c.Rule("R06.8", "the key of a pkgCache entry depends on the action IDs of the package's dependencies, whose facts the entry holds", 2)
+	n := 0
+	for _, name := range []string{"loadPkgCache", "computePkgCache"} {
+		fn := w.Fn(name)
+		if fn == nil {
+			c.Undecided("R06.8", name, "", "function not found")
+			continue
+		}
+		for _, cs := range w.CallsTo(cachePutBytes, cacheGetFile) {
+			if cs.Fn != fn {
+				continue // the look-up of a dependency's entry in the per-import closure is keyed the same way; R06.2 checks that writer and readers agree
+			}
+			n++
+			// the id is hashed through a hash.Hash (side effects), so look inside the key function:
+			// it must read the package's dependency set and the GarbleActionID of packages looked up from it
+			deps, ids := false, false
+			id := cs.Arg(0)
+			for {
+				if ld, ok := id.(*ssa.UnOp); ok {
+					id = ld.X
+					continue
+				}
+				if ct, ok := id.(*ssa.ChangeType); ok {
+					id = ct.X
+					continue
+				}
+				if cv, ok := id.(*ssa.Convert); ok {
+					id = cv.X
+					continue
+				}
+				break
+			}
+			if call, ok := id.(*ssa.Call); ok {
+				if kf := call.Call.StaticCallee(); kf != nil && w.isModuleFn(kf) {
+					bodies := []*ssa.Function{kf}
+					for name, f := range w.funcs { // range-over-func bodies of the key function
+						if strings.HasPrefix(name, w.FuncName(kf)+"$") {
+							bodies = append(bodies, f)
+						}
+					}
+					var blocks []*ssa.BasicBlock
+					for _, f := range bodies {
+						blocks = append(blocks, f.Blocks...)
+					}
+					for _, b := range blocks {
+						for _, in := range b.Instrs {
+							switch x := in.(type) {
+							case *ssa.FieldAddr:
+								switch fieldName(x.X.Type(), x.Field) {
+								case "allDeps", "Imports", "Deps":
+									deps = true
+								case "GarbleActionID":
+									if len(kf.Params) > 0 && x.X != ssa.Value(kf.Params[0]) {
+										ids = true // of another package than the one the entry belongs to
+									}
+								}
+							}
+						}
+					}
+				}
+			}
+			what := "GetFile"
+			if calleeName(cs.Instr) == cachePutBytes {
+				what = "PutBytes"
+			}
+			c.Check(deps && ids, "R06.8", name+": "+what+" key", w.Pos(cs.Instr.Pos()), "derived from the package's and its dependencies' action IDs",
+				"the entry is keyed by the package's own GarbleActionID only: after a comment-only edit of a dependency (its obfuscated names change, its export data does not) the dependant finds its old entry and the stale names of the dependency's types are injected into the binary")
+		}
+	}
+	if n == 0 {
+		c.Undecided("R06.8", "pkgCache look-ups", "", "no GetFile/PutBytes in loadPkgCache/computePkgCache")
 	}
 }
